@@ -59,6 +59,7 @@ class ColumnDefinition:
         parsed_column_text = ""
         parsed_comments = []
         parsed_comments_total_length = 0
+        comment_separators_added = 0
 
         # Define an index for the parsing the column text
         character_index = 0
@@ -81,6 +82,10 @@ class ColumnDefinition:
                 parsed_comments.append(parsed_comment)
                 character_index = last_comment_character_index
 
+                # A comment separates tokens like whitespace does: "a/**/INT"
+                parsed_column_text += " "
+                comment_separators_added += 1
+
             # Check for the "-- ... \n" comment form
             elif character == "-" and column_text[character_index + 1] == "-":
 
@@ -102,6 +107,10 @@ class ColumnDefinition:
                 parsed_comments.append(parsed_comment)
                 character_index = last_comment_character_index
 
+                # A comment separates tokens like whitespace does: "a-- c\nINT"
+                parsed_column_text += " "
+                comment_separators_added += 1
+
             else:
                 parsed_column_text += character
 
@@ -109,7 +118,12 @@ class ColumnDefinition:
             character_index += 1
 
         # Make sure the parsed lengths add up correctly to the original length
-        if parsed_comments_total_length + len(parsed_column_text) != len(column_text):
+        if (
+            parsed_comments_total_length
+            + len(parsed_column_text)
+            - comment_separators_added
+            != len(column_text)
+        ):
             log_message = (
                 "Column index: {} with column text: {} of length: {} was not parsed correctly.  The length "
                 "of the parsed comments total length was: {} with the following comments: {} and the "
